@@ -728,3 +728,16 @@ func alwaysErr(w *World, fn *ssa.Function, depth int) bool {
 	alwaysErrMemo[fn] = 1
 	return true
 }
+
+// ConstNilErrSuccess: only returns whose error result is the nil constant are
+// success exits (for functions that forward a callee's error on failure).
+func ConstNilErrSuccess(errIdx int) ExitClass {
+	return func(fa *FuncAn, ret *ssa.Return, in *Edge) bool {
+		res := RetResults(ret)
+		if errIdx >= len(res) {
+			return false
+		}
+		k, ok := res[errIdx].(*ssa.Const)
+		return ok && k.Value == nil
+	}
+}
